@@ -799,7 +799,12 @@ func (ot *objectTree) Delete() error {
 		return nil
 	}
 	ot.isDeleted = true
-	return ot.storage.Delete(context.Background())
+	if err := ot.storage.Delete(context.Background()); err != nil {
+		// the data is still there: stay usable, so that the caller can try again
+		ot.isDeleted = false
+		return err
+	}
+	return nil
 }
 
 func (ot *objectTree) SnapshotPath() ([]string, error) {
